@@ -6,7 +6,7 @@ from vlib import CheckError
 
 class Prop:
     pid = "C05"
-    vo_check = ["theories/Replay/Check.vo"]
+    vo_check = ["theories/Replay/Check.vo", "theories/Gen/ReplayAst.vo", "theories/Replay/AstGrid.vo"]
     vo_props = ["theories/Props/C05.vo"]
     k_names = ["verdicts(replay.Filter.ValidateCounter/Reset == Replay.Model.step)",
                "verdicts of a GOARCH=386 build of the replay package on the same histories == Replay.Model.step",
@@ -17,10 +17,48 @@ class Prop:
             "(ahead, within-window, duplicate, behind-window, over-limit); distinct by content hash")
     assumptions = ["counters are uint64 (model: N below 2^64)",
                    "receive path calls ValidateCounter(counter, RejectAfterMessages) once per authenticated message (covered by C02's co-simulation)"]
-    trusted_extra = ["Base/Ints.v: primitive Uint63 literals carry counters in generated case files only"]
+    trusted_extra = ["translator harness/cmd/replayast (go/parser over replay/replay.go: renders the bodies of ValidateCounter and Reset as "
+                     "terms of the deep-embedded language of Replay/Ast.v, constants evaluated from the file's const declarations; whatever it "
+                     "does not recognise becomes an *Unknown node on which the interpreter stops) and the interpreter's reading of Go "
+                     "(uint64 + - << wrap mod 2^64; >> & | on N; notes/C05-ast.md)",
+                     "Base/Ints.v: primitive Uint63 literals carry counters in generated case files only"]
 
     def __init__(self):
         self.dir = os.path.join(vlib.OUT, "C05")
+        # translator G2: the bodies of ValidateCounter / Reset, regenerated from the source on every run
+        self.translators = [lambda: vlib.gen_file("replayast", os.path.join("Gen", "ReplayAst.v"), ["-repo", vlib.REPO])]
+
+    def model_search(self, broken):
+        """Replay/AstProofs.v (interpreted source == model, all inputs) no longer checks: compare the interpreted
+        source with the set specification on the grid of Replay/AstGrid.v (15 prefixes x 31 counters)."""
+        import re
+        d = os.path.join(self.dir, "modelsearch")
+        os.makedirs(d, exist_ok=True)
+        open(os.path.join(d, "Search.v"), "w").write(
+            "From Coq Require Import String.\n"
+            "From WG Require Import Base.Prelude Gen.Constants Replay.Model Replay.Spec Replay.Ast Gen.ReplayAst Replay.AstGrid.\n"
+            "Definition w := Eval vm_compute in (firstn 5 grid_diffs, g_prefixes, g_counters).\nPrint w.\n")
+        rc, o = vlib.sh(["timeout", "600", "coqc", "-Q", os.path.join(vlib.COQ, "theories"), "WG", "Search.v"], cwd=d)
+        if rc != 0:
+            return None
+        flat = " ".join(o.split())
+        m = re.search(r"w = \(\[(.*?)\], (\[\[.*?\]\]), (\[[^\[\]]*\])\)", flat)
+        if not m:
+            return None
+        diffs = [tuple(int(x) for x in t) for t in re.findall(r"\((\d+)%N, (\d+)%N, (\d+)%N\)", m.group(1))]
+        diffs = [t for t in diffs if t[2] == 1]     # 0 = the interpreter stopped: not a behaviour of the code
+        if not diffs:
+            return None
+        prefixes = [[int(x) for x in re.findall(r"(\d+)%N", p)] for p in re.findall(r"\[([^\[\]]*)\]", m.group(2)[1:-1])]
+        counters = [int(x) for x in re.findall(r"(\d+)%N", m.group(3))]
+        ip, ic, _ = diffs[0]
+        hist = prefixes[ip] + [counters[ic]]
+        return {"signature": "interpreted-source-differs-from-the-set-specification",
+                "history_of_counters_validated_from_the_empty_filter": hist, "limit": 2**64 - 2**13 - 1,
+                "what": "the last verdict (or an earlier one) of the source as regenerated from the tree under test differs from "
+                        "the set specification Replay.Spec.sstep",
+                "replay": "coqc -Q coq/theories WG out/C05/modelsearch/Search.v ; on the implementation: replay.Filter.ValidateCounter "
+                          "over the same counters (harness/cmd/c05 -replay)"}
 
     def _aux386(self):
         """cmd/c05w (the filter alone) built for GOARCH=386: the package's word-size assumptions."""
